@@ -440,4 +440,9 @@ IEEE / mpmath round-to-nearest instance (including its correctly rounded square 
 executes and every run compares with CPython/mpmath, satisfies the full contract -/
 theorem C03_contract_ieee : Contract Rounding.ieee := contract_ieee
 
+/-- **argument type of the start accumulator, regenerated code**: a float start accumulator is the integer `int()` makes
+of it, never `"clear"` (`rfl` on the regenerated definition). -/
+theorem C03_gen_acc_float (R : Rounding) (amb : Nat) (steps rate accel : Py.Val) (q : Rat) :
+    Gen.calculate_lm R amb steps rate accel (.flt q) = Gen.calculate_lm R amb steps rate accel (.int (Py.intOfRat q)) := by rfl
+
 end Plotink
